@@ -443,6 +443,30 @@ func (e *Enc) edge(from, to *ssa.BasicBlock, cond Term) {
 		e.assertInvariants(li, from, et, e.cur, fmt.Sprintf("keep.e%d", e.backOrd[to]))
 		// a back edge of an outer loop may leave an inner loop
 		e.assertLoopExits(from, to, et, e.cur)
+		if li.lc != nil && len(li.lc.Backs) > 0 {
+			saveR, saveH := e.curR, e.cur
+			e.curR = et
+			ctx := e.baseCtx()
+			ctx.heap = e.cur
+			ctx.at = from
+			ctx.atEnd = true
+			ctx.params = map[string]bool{}
+			for _, pa := range e.fn.Params {
+				ctx.params[pa.Name()] = true
+			}
+			for j, bc := range li.lc.Backs {
+				t, err := ctx.EvalBool(bc.E)
+				if err != nil && strings.Contains(err.Error(), "unknown identifier") {
+					e.assertOb(fmt.Sprintf("loop%d/back.e%d#%d", li.ordinal, e.backOrd[to], j+1), tFalse, "before another iteration (cannot be stated here: "+err.Error()+"): "+bc.Src, token.NoPos)
+					continue
+				}
+				if err != nil {
+					e.fatal("loop %d back: %v", li.ordinal, err)
+				}
+				e.assertOb(fmt.Sprintf("loop%d/back.e%d#%d", li.ordinal, e.backOrd[to], j+1), t, "before another iteration: "+bc.Src, token.NoPos)
+			}
+			e.curR, e.cur = saveR, saveH
+		}
 		return
 	}
 	e.edges[[2]int{from.Index, to.Index}] = et
